@@ -726,7 +726,10 @@ func (b *BFT) SafeNode(msg *Message) lib.ErrorI {
 		return nil // SAFETY (SAME PROPOSAL AS LOCKED)
 	}
 	// if the view of the Locked proposal is older than the Leader's message
-	if msg.HighQc.Header.Round > b.HighQC.Header.Round {
+	// NOTE: rounds restart at 0 on every root-chain (NEW_COMMITTEE) reset while locks are kept, so views
+	// must be ordered by (root height, round): comparing rounds alone lets a certificate gathered under
+	// an older root height with a higher round unlock a newer lock
+	if b.HighQC.Header.Less(msg.HighQc.Header) {
 		b.log.Infof("Proposal %s satisfied the safe node predicate with LIVENESS", lib.BytesToTruncatedString(b.HighQC.BlockHash))
 		return nil // LIVENESS (HIGHER ROUND v COMMITTEE THAN LOCKED)
 	}
